@@ -53,7 +53,7 @@ Expand(sc, id, bv, es, i) ==
 Ex(sc, id, bv, es) == Expand(sc, id, bv, es, 1)
 
 \* canonical spelling of the paths the grammar uses
-CanonS(p) == CASE p = "./a" -> "a" [] p = "d/../b" -> "b" [] p = "c//" -> "c" [] p = "./d/./e" -> "d/e" [] OTHER -> p
+CanonS(p) == CASE p = "./a" -> "a" [] p = "./s" -> "s" [] p = "d/../b" -> "b" [] p = "c//" -> "c" [] p = "./d/./e" -> "d/e" [] OTHER -> p
 
 Fn(binds) == [n \in {binds[i].name : i \in DOMAIN binds} |-> binds[CHOOSE i \in DOMAIN binds : binds[i].name = n /\ \A j \in DOMAIN binds : binds[j].name = n => j <= i].val]
 
@@ -223,16 +223,51 @@ IncBuilds == {f \in IncForms : f.k = "build"}
 RuleOK(f) == LET b == Fn(f.binds) IN "command" \in DOMAIN b /\ (\A i \in DOMAIN f.binds : f.binds[i].name \in Reserved) /\ (("rspfile" \in DOMAIN b) = ("rspfile_content" \in DOMAIN b))
 RulesROK == {f \in RulesR : RuleOK(f)}
 Structured(round) ==
-  { [main |-> <<a, b, c, d, e, f, h>>, inc |-> <<i1, i2>>] :
+  { [main |-> <<a, b, c, d, e, f, h>>, inc |-> <<i1, i2>>, inc2 |-> <<>>] :
       a \in RandomSubset(1, LetForms \cup PoolsOK), b \in RandomSubset(2, RulesROK) \cup RandomSubset(1, RulesR),
       c \in RandomSubset(2, RulesQ \cup LetForms \cup {Include("inc.ninja"), Subninja("inc.ninja")}),
       d \in RandomSubset(2, BuildForms), e \in RandomSubset(2, LetForms \cup BuildForms \cup {Include("inc.ninja"), Subninja("inc.ninja")}),
       f \in RandomSubset(2, BuildForms \cup OtherForms), h \in RandomSubset(1, LetForms \cup OtherForms),
       i1 \in RandomSubset(1, LetForms \cup RuleForms), i2 \in RandomSubset(1, IncBuilds \cup LetForms) }
+\* programs built to be accepted most of the time: builds draw their outputs from disjoint classes of spellings
+RulesQOK == {f \in RulesQ : RuleOK(f) /\ "dyndep" \notin DOMAIN Fn(f.binds)}
+B1(o, r, i, b) == Build(<<o>>, <<>>, r, <<i>>, <<>>, <<>>, <<>>, b)
+BindSets == {<<>>, <<Bd("x", <<T("9")>>)>>, <<Bd("flags", <<Var("x"), T("!")>>), Bd("x", <<T("8")>>)>>, <<Bd("y", <<Var("x"), Var("y")>>)>>, <<Bd("description", <<T("d "), Var("out")>>)>>}
+Ins == {<<T("s")>>, <<T("./s")>>, <<T("a b")>>, <<T("x:y")>>, <<T("$")>>}
+Valid(round) ==
+  { [main |-> <<a, b, c, d, e, f, h, k>>, inc |-> <<i1, i2>>, inc2 |-> <<>>] :
+      a \in RandomSubset(2, LetForms), b \in RandomSubset(2, RulesROK), c \in RandomSubset(1, RulesQOK),
+      d \in RandomSubset(2, LetForms \cup {Include("inc.ninja"), Subninja("inc.ninja")}),
+      e \in RandomSubset(2, {B1(o, r, i, bs) : o \in {<<T("a")>>, <<T("./a")>>, <<T("o"), T("a b")>>}, r \in {"r", "q", "phony"}, i \in Ins, bs \in BindSets}),
+      f \in RandomSubset(2, LetForms \cup {B1(o, r, i, bs) : o \in {<<T("b")>>, <<T("d/../b")>>, <<T("o"), T("$")>>}, r \in {"r", "q"}, i \in Ins \cup {<<T("a")>>}, bs \in BindSets}),
+      h \in RandomSubset(1, {Build(<<<<T("c")>>, <<T("o"), T("x:y")>>>>, <<<<T("c2")>>>>, "r", <<<<T("a")>>, <<T("s")>>>>, <<<<T("t")>>>>, <<<<T("u")>>>>, <<<<T("b")>>>>, bs) : bs \in BindSets}),
+      k \in RandomSubset(1, {Default(<<<<T("a")>>>>), Default(<<<<T("c")>>, <<T("./a")>>>>), Let("x", <<T("late")>>), Let("flags", <<T("-late")>>)}),
+      i1 \in RandomSubset(1, LetForms \cup RulesQOK), i2 \in RandomSubset(1, IncBuilds \cup LetForms) }
+(***************************************************************************)
+(* include versus subninja, enumerated: two statements A, B of the top file *)
+(* each include or subninja one of two files; the files bind variables,    *)
+(* declare rules (a duplicate when included into a scope that has the rule, *)
+(* a shadowing declaration when read by subninja) and build outputs whose   *)
+(* names and commands show which scope every lookup used; the top file      *)
+(* rebinds a variable between and after them.                               *)
+(***************************************************************************)
+RR(n, c) == Rule(n, <<Bd("command", c)>>)
+IncStmts(tag) ==
+  { <<i1, i2>> : i1 \in {Let("x", <<T(tag)>>), Let("y", <<Var("x"), T(tag)>>), RR("q", <<T("q"), T(tag), T(" "), Var("x"), Var("y")>>), RR("r", <<T("r"), T(tag), T(" "), Var("y")>>)},
+                 i2 \in {B1(<<T(tag), Var("x")>>, "r", <<T("s")>>, <<>>), B1(<<T(tag), Var("y")>>, "q", <<T("s")>>, <<>>), Let("y", <<Var("x"), Var("y"), T("+")>>)} }
+ScopeRefs == {Include(f) : f \in {"inc.ninja", "inc2.ninja"}} \cup {Subninja(f) : f \in {"inc.ninja", "inc2.ninja"}}
+Scoping ==
+  { [main |-> <<Let("x", <<T("1")>>), RR("r", <<T("run "), Var("x"), T(" "), Var("y")>>), A>> \o M \o <<B, B1(<<T("a"), Var("y")>>, "r", <<T("s")>>, <<>>)>> \o Z,
+     inc |-> i, inc2 |-> j] :
+      A \in ScopeRefs, B \in ScopeRefs, M \in {<<>>, <<Let("x", <<T("2")>>)>>, <<Let("y", <<T("m")>>)>>}, Z \in {<<>>, <<Let("y", <<T("z")>>)>>, <<B1(<<T("w")>>, "q", <<T("s")>>, <<>>)>>},
+      i \in IncStmts("i"), j \in IncStmts("j") }
+SC == IF "SC" \in DOMAIN IOEnv THEN atoi(IOEnv.SC) ELSE 200
 Programs ==
   UNION { Structured(r) : r \in 1..K }
-  \cup UNION { { [main |-> m, inc |-> i] : m \in RandomSubset(K, [1..n -> Forms]), i \in RandomSubset(1, [1..2 -> IncForms]) } : n \in 3..5 }
-FilesOf(p) == [f \in {"build.ninja", "inc.ninja"} |-> IF f = "build.ninja" THEN p.main ELSE p.inc]
+  \cup UNION { Valid(r) : r \in 1..(2 * K) }
+  \cup (IF SC >= Cardinality(Scoping) THEN Scoping ELSE RandomSubset(SC, Scoping))
+  \cup UNION { { [main |-> m, inc |-> i, inc2 |-> <<>>] : m \in RandomSubset(K, [1..n -> Forms]), i \in RandomSubset(1, [1..2 -> IncForms]) } : n \in 3..5 }
+FilesOf(p) == [f \in {"build.ninja", "inc.ninja", "inc2.ninja"} |-> IF f = "build.ninja" THEN p.main ELSE IF f = "inc.ninja" THEN p.inc ELSE p.inc2]
 
 \* model checking: one state per sampled program; the reference must be total and errors must be classified
 VARIABLE prog
@@ -240,7 +275,7 @@ Init == prog \in Programs
 Next == UNCHANGED prog
 Spec == Init /\ [][Next]_prog
 Total == LET r == Eval(FilesOf(prog)) IN r.ok \/ r.err # ""
-StopInit == prog = [main |-> <<>>, inc |-> <<>>]
+StopInit == prog = [main |-> <<>>, inc |-> <<>>, inc2 |-> <<>>]
 
 ExpOn == "OUT" \in DOMAIN IOEnv
 ASSUME ~ExpOn \/ ndJsonSerialize(IOEnv.OUT, SetToSeq({[files |-> Render(FilesOf(p)), exp |-> Eval(FilesOf(p))] : p \in Programs}))
